@@ -234,8 +234,12 @@ def _task(t):
     for case in cases:
         try:
             obj = build(case)
-        except Exception:
+        except Exception as e:
+            # every case is an in-domain object (none is rejected on the unchanged tree): report, do not skip
             C.count(r, "rejected")
+            if len(r["violations"]) < 40:
+                r["violations"].append(C.viol("in-domain-object-cannot-be-built", dict(case_key(case), exc=type(e).__name__),
+                                              {"error": repr(e)[:200]}, case))
             continue
         vs, b = conformance(obj, case, case_key(case))
         r["evals"] += 1
